@@ -498,6 +498,19 @@ class Program:
         """The coroutine body of `async fn name`."""
         return self.body(name + "::{closure#0}")
 
+    def async_body(self, name):
+        """The coroutine holding the source-level body of `async fn name` (looks through the
+        wrapper block that `#[tracing::instrument]` inserts)."""
+        b = self.coroutine_of(name)
+        for _ in range(3):
+            if not b.calls_to(r"tracing::instrument::Instrument::instrument$"):
+                return b
+            inner = [x for x in self.by_name.get(b.name + "::{closure#0}", []) if x.is_coroutine]
+            if len(inner) != 1:
+                return b
+            b = inner[0]
+        return b
+
     def all_bodies(self, crates=None):
         for b in self.bodies.values():
             if crates is None or b.crate in crates:
